@@ -7,7 +7,7 @@ import contracts.standins_iter as B
 PROVED = [CP.do_compute_1, CP.do_compute_2, CP.do_compute_3, CH.chunk_split, CH.concatenate2, CH.merge2]
 
 PROPERTY = Property(
-    "C08", "proof",
+    "C08", "exploration",
     contracts=PROVED,
     standins=[StandIn("Plugin.iter alignment / exactly-once over independent chunkings (real code)", B.plugin_iter, B.plugin_iter.harness,
                       budget={"quick": 100, "thorough": 700})],
